@@ -48,6 +48,23 @@ def full_map(jitlib, prog):
     return q
 
 
+def count_stores(spec, prog, idx):
+    """number of memory destinations in the IR of instruction @idx of @prog"""
+    from miasm.core.bin_stream import bin_stream_str
+    from miasm.core.locationdb import LocationDB
+    off, ln, txt, nm = prog.instrs[idx]
+    try:
+        loc_db = LocationDB()
+        lifter = spec.machine.lifter(loc_db)
+        raw = prog.code[off - spec.L.CODE: off - spec.L.CODE + ln]
+        instr = spec.mn.dis(bin_stream_str(raw, base_address=off), spec.attrib, off)
+        ircfg = lifter.new_ircfg()
+        lifter.add_instr_to_ircfg(instr, ircfg)
+        return sum(1 for blk in ircfg.blocks.values() for ab in blk for dst in ab if dst.is_mem())
+    except Exception:
+        return -1
+
+
 def run_shard(params, rec):
     common.quiet()
     from miasm.jitter.csts import PAGE_READ, PAGE_WRITE, EXCEPT_ACCESS_VIOL
@@ -132,6 +149,8 @@ def run_shard(params, rec):
         rec.count("position:" + pos)
         if d is not None:
             kind = d[0]
+            nstores = count_stores(spec, prog, idx)
+            kind += ", multi-store instruction" if nstores > 1 else (", single store" if nstores == 1 else ", no store")
             rec.fail("%s: faulting instruction has a %s effect (%s)" % (backend, kind, spec.family),
                      "%s %s: after the fault at %s: %s %s" % (spec.mname, backend, wit["faulting"], d[0], d[1]),
                      dict(wit, diff=d))
@@ -161,6 +180,9 @@ def run_shard(params, rec):
             nofault = jitlib.run(spec, backend, q, options=opts, max_steps=200)
         except Exception as exc:
             rec.count("harness_run_error")
+            continue
+        if "CalledProcessError" in (nofault.raised, res.raised):
+            rec.count("unsupported_by_backend")
             continue
         d2 = jitlib.diff_outcomes(nofault, res, spec)
         rec.count("resumes_compared")
